@@ -150,6 +150,71 @@ theorem len_eq_data_from_time {ax : Axis} {n : Nat} {t0 : Option TArg} {u : UArg
     (t0 = none → sr.time.t0 = ax.t0) := by
   exact mkSeriesFromTime_inv h
 
+/-! ### unit, start and inherited duration -/
+
+/-- unit and start of an axis specified from scratch: the unit is the requested one, else the
+unit of a duration given as a time object, else that of an interval given as a time object, else
+seconds; the start is the `t0` argument cast in that unit (0 when absent) -/
+theorem unit_and_start_plain {s : Spec} {a : Axis} (h : mkUniform .intended s = .ok a)
+    (hd : s.data = none) :
+    ∃ uo, checkUnit s.unit = .ok uo ∧ a.unit = inferUnit uo s.duration s.interval ∧
+      a.t0 = targPs a.unit (s.t0.getD (.num (.int 0))) := by
+  obtain ⟨_, r, hr, hb⟩ := mkUniform_inv h
+  obtain ⟨_, e0, _, _, eu, _, _⟩ := build_intended hb
+  obtain ⟨uo, h1, h2, h3, _⟩ := resolve_after_inherit (inherit_none hd) hr
+  exact ⟨uo, h1, by rw [eu, h2], by rw [e0, eu, h3]⟩
+
+/-- unit and start of an axis built from an existing one: the requested unit, else the source's;
+the requested start (cast in that unit), else the source's start -/
+theorem unit_and_start_from_axis {s : Spec} {a d : Axis} (h : mkUniform .intended s = .ok a)
+    (hd : s.data = some d) :
+    (∀ u, s.unit = .ok u → a.unit = u) ∧ (s.unit = .none → a.unit = d.unit) ∧
+    (s.t0 = none → a.t0 = d.t0) ∧ (∀ t, s.t0 = some t → a.t0 = targPs a.unit t) := by
+  obtain ⟨_, r, hr, hb⟩ := mkUniform_inv h
+  obtain ⟨_, e0, _, _, eu, _, _⟩ := build_intended hb
+  cases hi : inherit .intended s with
+  | error e => simp [resolve, hi, bind, Except.bind] at hr
+  | ok s' =>
+    obtain ⟨f1, f2⟩ := inherit_intended_fields hd hi
+    obtain ⟨uo, h1, h2, h3, _⟩ := resolve_after_inherit hi hr
+    refine ⟨?_, ?_, ?_, ?_⟩
+    · intro u hu
+      rw [hu] at f1
+      rw [f1] at h1
+      simp only [checkUnit, Except.ok.injEq] at h1
+      subst h1
+      rw [eu, h2]; rfl
+    · intro hu
+      rw [hu] at f1
+      rw [f1] at h1
+      simp only [checkUnit, Except.ok.injEq] at h1
+      subst h1
+      rw [eu, h2]; rfl
+    · intro ht
+      rw [ht] at f2
+      rw [e0, h3, f2]; rfl
+    · intro t ht
+      rw [ht] at f2
+      rw [e0, eu, h3, f2]; rfl
+
+/-- an axis built from an existing one with a new interval or rate (or nothing) and neither length
+nor duration covers the source's duration: sample `i` exists iff `i·Δ` lies before it -/
+theorem from_axis_keeps_duration {s : Spec} {a d : Axis} (h : mkUniform .intended s = .ok a)
+    (hd : s.data = some d) (hl : s.length = none) (hdur : s.duration = none) :
+    ∀ i : Nat, i < a.n ↔ (i : Int) * a.dt < d.dur := by
+  obtain ⟨hc, r, hr, hb⟩ := mkUniform_inv h
+  obtain ⟨r', hr', hdt, hn⟩ := len_duration_only h hl
+  rw [hr] at hr'; cases hr'
+  cases hi : inherit .intended s with
+  | error e => simp [resolve, hi, bind, Except.bind] at hr
+  | ok s' =>
+    obtain ⟨f1, f2⟩ := inherit_intended_duration hd hl hdur hc hi
+    obtain ⟨uo, _, _, _, iv, hz, _, hD, _, _⟩ := resolve_after_inherit hi hr
+    rw [f1] at hD
+    simp only [durationPs, targPs, Except.ok.injEq] at hD
+    intro i
+    rw [hn i, ← hD]
+
 /-! ### the same sampling written differently -/
 
 /-- an interval given as a time object is stored as it is, whatever its display unit and whatever
@@ -252,6 +317,91 @@ example :
     mkUniform .intended { length := some 4, rate := some (.freq (frequency (F64.fdiv 1 (1 / 2)) .s)), unit := .ok .s }
       = mkUniform .intended { length := some 4, interval := some (.num (.flt (1 / 2))), unit := .ok .s } := by
   decide +kernel
+
+/-- `attrs_describe_axis` (rate), bare-number rate: a positive binary64 rate `hz` (Hz) given as a
+plain number is reported unchanged and the stored interval is within one picosecond, plus binary64
+resolution, of its period -/
+theorem attrs_rate_bare_number {s : Spec} {a : Axis} {hz : Rat} {u : TimeUnit}
+    (h : mkUniform .intended s = .ok a) (hd : s.data = none) (hi : s.interval = none)
+    (hr : s.rate = some (.num (.flt hz))) (hu : s.unit = .ok u) (hhz : 0 < hz) (hrep : F64.rne hz = hz) :
+    a.rate = hz ∧ |(a.dt : Rat) - 10 ^ 12 / a.rate| ≤ 1 + 7 * (10 ^ 12 / a.rate + 1) / 2 ^ 53 := by
+  obtain ⟨_, r, hres, hb⟩ := mkUniform_inv h
+  obtain ⟨_, _, hdt, hrate, _, _, _⟩ := build_intended hb
+  obtain ⟨x, ex, e1, e2, _, _⟩ := resolve_rate_num hres hd hi hr hu
+  have hf : frequency (numToF (.flt hz)) .s = hz := frequency_s_of_repr hz hrep
+  rw [hf] at ex e2
+  obtain ⟨x', ex', c⟩ := rate_interval_close u hz hhz
+  rw [ex] at ex'
+  cases ex'
+  rw [hdt, hrate, e1, e2]
+  exact ⟨rfl, c⟩
+
+/-- the same for a rate given as a python integer below 2⁵³ (e.g. `sampling_rate=1000`) -/
+theorem attrs_rate_int {s : Spec} {a : Axis} {k : Nat} {u : TimeUnit}
+    (h : mkUniform .intended s = .ok a) (hd : s.data = none) (hi : s.interval = none)
+    (hr : s.rate = some (.num (.int k))) (hu : s.unit = .ok u) (hk : 0 < k) (hlt : k < 2 ^ 53) :
+    a.rate = k ∧ |(a.dt : Rat) - 10 ^ 12 / a.rate| ≤ 1 + 7 * (10 ^ 12 / a.rate + 1) / 2 ^ 53 := by
+  obtain ⟨_, r, hres, hb⟩ := mkUniform_inv h
+  obtain ⟨_, _, hdt, hrate, _, _, _⟩ := build_intended hb
+  obtain ⟨x, ex, e1, e2, _, _⟩ := resolve_rate_num hres hd hi hr hu
+  have hnum : numToF (.int k) = (k : Rat) := C02F.ofInt_natCast k hlt
+  have hf : frequency (numToF (.int k)) .s = (k : Rat) := by
+    rw [hnum]; exact frequency_s_of_repr _ (C02F.rne_natCast k hlt)
+  rw [hf] at ex e2
+  have hkpos : (0 : Rat) < k := by exact_mod_cast hk
+  obtain ⟨x', ex', c⟩ := rate_interval_close u (k : Rat) hkpos
+  rw [ex] at ex'
+  cases ex'
+  rw [hdt, hrate, e1, e2]
+  exact ⟨rfl, c⟩
+
+/-- `same_sampling`, non-whole intervals: for every positive binary64 interval `x` whose reported
+rate has a period of at most 2⁴⁸ ps (≈ 4.7 min), the interval stored for `x` and the interval stored
+for the rate that `x` reports differ by at most one picosecond -/
+theorem same_sampling_within_one (u : TimeUnit) (x : Rat) (hx : 0 < x)
+    (hP : 10 ^ 12 / frequency (F64.fdiv 1 x) u ≤ 2 ^ 48) :
+    ∃ x', intervalOfRate .intended u (frequency (F64.fdiv 1 x) u) = .ok x' ∧
+      |toPs u (.flt x) - toPs u (.flt x')| ≤ 1 := by
+  obtain ⟨hpos, c1⟩ := interval_rate_close u x hx
+  obtain ⟨x', ex', c2⟩ := rate_interval_close u _ hpos
+  refine ⟨x', ex', ?_⟩
+  have Ppos : (0 : Rat) < 10 ^ 12 / frequency (F64.fdiv 1 x) u := by positivity
+  generalize (10 : Rat) ^ 12 / frequency (F64.fdiv 1 x) u = P at *
+  have hlt : |((toPs u (.flt x) : Int) : Rat) - ((toPs u (.flt x') : Int) : Rat)| < 2 := by
+    have e : ((toPs u (.flt x) : Int) : Rat) - ((toPs u (.flt x') : Int) : Rat)
+        = (((toPs u (.flt x) : Int) : Rat) - P) - (((toPs u (.flt x') : Int) : Rat) - P) := by ring
+    rw [e]
+    have := abs_sub (((toPs u (.flt x) : Int) : Rat) - P) (((toPs u (.flt x') : Int) : Rat) - P)
+    have h5 : 5 * P / 2 ^ 53 ≤ 5 * 2 ^ 48 / 2 ^ 53 := by
+      apply div_le_div_of_nonneg_right _ (by positivity); linarith
+    have h7 : 7 * (P + 1) / 2 ^ 53 ≤ 7 * (2 ^ 48 + 1) / 2 ^ 53 := by
+      apply div_le_div_of_nonneg_right _ (by positivity); linarith
+    norm_num at h5 h7
+    linarith
+  have : |toPs u (.flt x) - toPs u (.flt x')| < 2 := by exact_mod_cast hlt
+  omega
+
+/-- int64: inside the property's domain (|t0| and the extent n·Δ below 2⁶²) nothing the constructor
+lays out wraps: every sample, the duration and the end of the axis are below 2⁶³ in magnitude -/
+theorem fits62_no_wrap_axis (a : Axis) (hdt : 0 < a.dt) (hdur : a.dur = (a.n : Int) * a.dt)
+    (h0 : |a.t0| < 2 ^ 62) (hext : (a.n : Int) * a.dt < 2 ^ 62) :
+    (∀ i, i < a.n → |sampleAt a i| < 2 ^ 63) ∧ 0 ≤ a.dur ∧ a.dur < 2 ^ 63 ∧ |a.t0 + a.dur| < 2 ^ 63 := by
+  have hn : (0 : Int) ≤ a.n := Int.natCast_nonneg _
+  have hd0 : 0 ≤ (a.n : Int) * a.dt := mul_nonneg hn hdt.le
+  rw [abs_lt] at h0
+  refine ⟨fun i hi => ?_, by rw [hdur]; exact hd0, by rw [hdur]; omega, by rw [hdur, abs_lt]; constructor <;> omega⟩
+  have hi' : (i : Int) * a.dt ≤ (a.n : Int) * a.dt :=
+    mul_le_mul_of_nonneg_right (by exact_mod_cast hi.le) hdt.le
+  have hi0 : 0 ≤ (i : Int) * a.dt := mul_nonneg (Int.natCast_nonneg _) hdt.le
+  simp only [sampleAt]
+  rw [abs_lt]; constructor <;> omega
+
+/-- the same for every accepted specification -/
+theorem fits62_no_wrap {s : Spec} {a : Axis} (h : mkUniform .intended s = .ok a)
+    (h0 : |a.t0| < 2 ^ 62) (hext : (a.n : Int) * a.dt < 2 ^ 62) :
+    (∀ i, i < a.n → |sampleAt a i| < 2 ^ 63) ∧ 0 ≤ a.dur ∧ a.dur < 2 ^ 63 ∧ |a.t0 + a.dur| < 2 ^ 63 := by
+  obtain ⟨hdt, hdur, _⟩ := attrs_describe_axis h
+  exact fits62_no_wrap_axis a hdt hdur h0 hext
 
 /-- `rebuilt_axis_identical`: an axis rebuilt from an existing well-formed axis with no further
 specification is that axis (start, interval, count, duration, rate, unit — hence every sample), for
